@@ -9,7 +9,7 @@ FINALIZE = "Sha256::finalize(this|ptr_unsigned_char)"
 
 def U(name, entry, enforce=None, replace=(), reach=(), **kw):
     d = dict(name="Sha256." + name, prop="C17", entry=entry, srcs=SRCS, enforce=enforce, replace=list(replace),
-             kind="proof", tier="quick", reach=list(reach), timeout=1800, native=["src/Memory.cpp"],
+             kind="proof", tier="quick", reach=list(reach), timeout=3600, native=["src/Memory.cpp"],
              funcs=[enforce[0].split("(")[0]] if enforce else [], min_obligations=1)
     d.update(kw)
     return d
